@@ -165,11 +165,10 @@ def run(R):
                 sc = step("same-sources-cold-cache", True, None, home=cold2)
                 shutil.rmtree(cold2, ignore_errors=True)
                 diff = [p for p in paths[:3] if sw[p] is None or sc[p] is None or sw[p][0] != sc[p][0]]
-                lib_now = open(paths[1]).read() if os.path.exists(paths[1]) else ""
-                if diff or "core2" not in lib_now:
+                if diff:
                     viol("output depends on the state of the documentation cache: after `ext/helper/src/parts.inc` (included by the crate's lib.rs) was "
-                         "rewritten, the run with the warm cache and the run with a cold cache on the SAME sources differ in %s%s" % (
-                             [os.path.relpath(p, ws.root) for p in diff], "" if "core2" in lib_now else "; the generated code still names the module that no longer exists"), o,
+                         "rewritten, the run with the warm cache and the run with a cold cache on the SAME sources differ in %s" % (
+                             [os.path.relpath(p, ws.root) for p in diff]), o,
                          {"history": list(steps), "warm": sw, "cold": sc})
                 open(inc, "w").write(_e2e.EXT_HELPER_PARTS)
                 s10 = step("regenerate-after-restoring-the-included-source", True, None)
